@@ -32,11 +32,12 @@ type harnessSpec struct {
 	Opts     map[string]string
 	Validate bool // ZZV_ translator-validation harness (concrete)
 	Shard    string
+	Facts    bool // ZZF_ harness: native fact extraction + solver query over the tables
 }
 
 func (h *harnessSpec) Name() string { return h.Func + h.Shard }
 
-var funcRe = regexp.MustCompile(`^func (ZZV?_[A-Za-z0-9_]+)\(\)`)
+var funcRe = regexp.MustCompile(`^func (ZZ[VF]?_[A-Za-z0-9_]+)\(\)`)
 
 func scanHarnesses() ([]*harnessSpec, error) {
 	var out []*harnessSpec
@@ -84,7 +85,7 @@ func scanHarnesses() ([]*harnessSpec, error) {
 					}
 				}
 				h := &harnessSpec{File: filepath.Join(repoDir, rel), RelDir: filepath.Dir(rel), Func: m[1], Opts: pending,
-					Property: pending["property"], Tier: pending["tier"], Validate: strings.HasPrefix(m[1], "ZZV_")}
+					Property: pending["property"], Tier: pending["tier"], Validate: strings.HasPrefix(m[1], "ZZV_"), Facts: strings.HasPrefix(m[1], "ZZF_")}
 				if h.Tier == "" {
 					h.Tier = "quick"
 				}
@@ -302,15 +303,47 @@ func cmdCheck(args []string) int {
 			defer wg.Done()
 			sem <- struct{}{}
 			defer func() { <-sem }()
+			if h.Facts {
+				results[i] = &harnessResult{Spec: h, TwinOK: true, TwinNote: "n/a (fact tables)", Complete: true}
+				return
+			}
 			results[i] = runHarness(prog, h, *tier, known, &stopFlag)
 		}(i, h)
 	}
 	wg.Wait()
 
+	// fact-table harnesses
+	factViolations := 0
+	factCount := 0
+	factQueries := map[string]int{}
+	var factSamples []interface{}
+	var factBroken []string
+	for _, r := range results {
+		if !r.Spec.Facts {
+			continue
+		}
+		fs, n, q, _, err := runFacts(id, r.Spec)
+		if err != nil {
+			factBroken = append(factBroken, r.Spec.Func+": "+err.Error())
+			continue
+		}
+		factCount += n
+		for k, v := range q {
+			factQueries[k] += v
+		}
+		for _, f := range fs {
+			factViolations++
+			path := writeFactsReplay(id, r.Spec, f)
+			fmt.Printf("VIOLATION property=%s replay=%s\n  harness=%s kind=%s name=%q site=%s\n", id, path, r.Spec.Func, f.Kind, f.Name, f.Site)
+			factSamples = append(factSamples, map[string]interface{}{"harness": r.Spec.Func, "finding": f})
+		}
+		factSamples = append(factSamples, map[string]interface{}{"harness": r.Spec.Func, "facts_extracted_natively": n, "queries": q})
+	}
+
 	// translator validation (concrete harnesses run natively and in the engine)
 	nValidated, valErr := 0, ""
 	for _, r := range results {
-		if r.Spec.Validate && r.Err == "" {
+		if r.Spec.Validate && r.Err == "" && !r.Spec.Facts {
 			n, err := validateNative(r)
 			nValidated += n
 			if err != nil {
@@ -335,6 +368,9 @@ func cmdCheck(args []string) int {
 	replays := 0
 	bounds := map[string]interface{}{}
 	for _, r := range results {
+		if r.Spec.Facts {
+			continue
+		}
 		if r.Err != "" {
 			broken = append(broken, r.Spec.Func+": "+r.Err)
 			continue
@@ -420,6 +456,16 @@ func cmdCheck(args []string) int {
 			samples = append(samples, map[string]interface{}{"harness": r.Spec.Func, "known_finding": kid, "witness": f.Inputs, "site": f.Site})
 		}
 	}
+	violations += factViolations
+	if factViolations > 0 {
+		exit = 1
+	}
+	broken = append(broken, factBroken...)
+	samples = append(samples, factSamples...)
+	for k, v := range factQueries {
+		q[k] += v
+	}
+	nValidated += factCount
 	sort.Strings(knownLines)
 	seenLine := map[string]bool{}
 	for _, l := range knownLines {
